@@ -179,9 +179,6 @@ func c15Pair(c *core.Ctx, base, target any) {
 
 func buildC15(tier string) *core.Plan {
 	n := 4
-	if tier == "thorough" {
-		n = 5
-	}
 	trees := c15Trees(n)
 	// list entries where one map is a subset of another, duplicates and reorders beyond the node bound
 	entries := []any{1, 2, "x", map[string]any{"a": 1}, map[string]any{"a": 1, "b": 2}, map[string]any{"a": 2}, []any{1}}
@@ -202,6 +199,18 @@ func buildC15(tier string) *core.Plan {
 	pairs := core.Space{Name: fmt.Sprintf("all-pairs-%d-nodes", n), N: nt * nt,
 		Desc: func(i int64) any { return map[string]any{"base": trees[i/nt], "target": trees[i%nt]} },
 		Run:  func(c *core.Ctx, i int64) { c15Pair(c, trees[i/nt], trees[i%nt]) }}
+	var bigPairs *core.Space
+	if tier == "thorough" {
+		// (all 130 M ordered pairs of 5-node trees take an hour: the fifth node is explored on one side)
+		big, lil := c15Trees(5), c15Trees(4)
+		nb, nl5 := int64(len(big)), int64(len(lil))
+		bigPairs = &core.Space{Name: "pairs-5-nodes-with-4-nodes-both-directions", N: nb * nl5,
+			Desc: func(i int64) any { return map[string]any{"a": big[i/nl5], "b": lil[i%nl5]} },
+			Run: func(c *core.Ctx, i int64) {
+				c15Pair(c, big[i/nl5], lil[i%nl5])
+				c15Pair(c, lil[i%nl5], big[i/nl5])
+			}}
+	}
 	nl := int64(len(lists))
 	listPairs := core.Space{Name: "list-pairs", N: nl * nl,
 		Desc: func(i int64) any {
@@ -450,8 +459,12 @@ func buildC15(tier string) *core.Plan {
 		Run: func(c *core.Ctx, i int64) {
 			c15CLI(c, numBase, numTargets[i/27], fm[i%3], fm[(i/3)%3], fm[(i/9)%3])
 		}}
+	allSpaces := []core.Space{pairs, listPairs, cli, refSpace, numSpace, kindSpace, dollarSpace, inheritSpace, neighSpace, rootSpace}
+	if bigPairs != nil {
+		allSpaces = append(allSpaces, *bigPairs)
+	}
 	return &core.Plan{
-		Spaces: []core.Space{pairs, listPairs, cli, refSpace, numSpace, kindSpace, dollarSpace, inheritSpace, neighSpace, rootSpace},
+		Spaces: allSpaces,
 		Rule:   "every ordered pair (base, target) of map-rooted, null-free, $-free trees up to N nodes over keys {a,b,l} and scalars {1,2,x}; every pair of lists of <=2 (thorough 3) entries drawn from scalars, sub-lists and maps where one is a subset of another; CLI round trips in format mixes; non-trivial = base differs from target",
 		Assumptions: []string{"in-process runs use cmd/bkld/diff.go copied from /repo's working tree at build time (package clause rewritten, fatal() panics), driven exactly like cmd/bkld/main.go; the CLI space runs the real binaries",
 			"the emitted layer is applied as a second input (`bkl base layer`), where its $match: {} selects the base document"},
